@@ -77,3 +77,26 @@ Example ex_feet_value :
   | Raise _ => False end /\
   match canon ex_geo with g' => map (fun n => dy_norm (n_x n)) (firstn 2 (g_nodes g')) = [mkdy false 0 0; dy_norm (dy_of_dec false 3048 (-1))] end.
 Proof. split; vm_compute; reflexivity. Qed.
+
+(** ** byte-for-byte second write: refuted at full strength by a layer whose centre prints
+    as 0.00 -- [read_layers] takes a zero centre for "absent" ([if centre:]) and recomputes it
+    as the mid-point of the PRINTED bottoms: 0.51 and -0.50 give 0.005000000000000004, which
+    the second write prints as 0.01.  (Same geometry class as mulgrid().rectangular with
+    layer boundaries 0.5051 and -0.5049; reproduced on the implementation by the oracle.) *)
+Definition ex_centre_geo : geo :=
+  mkgeo (mkhdr (s2l "GENER") 0 2 (mkdy false 4656612873077393 31) (mkdy false 4722366482869645 (-72)) [] None None None (dz 0) None)
+    (g_nodes ex_geo) (g_cols ex_geo) (g_cons ex_geo)
+    [mklay (s2l " 0") (dy_of_dec false 105051 (-4)) (dy_of_dec false 105051 (-4));
+     mklay (s2l " 1") (dy_of_dec false 5051 (-4)) (dy_of_dec false 55051 (-4));
+     mklay (s2l " 2") (dy_of_dec true 5049 (-4)) (dy_of_dec false 1 (-4));
+     mklay (s2l " 3") (dy_of_dec true 305049 (-4)) (dy_of_dec true 155049 (-4))]
+    [].
+Lemma ex_centre_facts : wf ex_centre_geo = true /\ nwf ex_centre_geo = true /\ res_str_eqb (write (canon ex_centre_geo)) (write ex_centre_geo) = false.
+Proof. split; [|split]; vm_compute; reflexivity. Qed.
+Theorem write_idem_refuted : exists g, wf g = true /\ nwf g = true /\ write (canon g) <> write g.
+Proof.
+  exists ex_centre_geo. destruct ex_centre_facts as [A [B C]]. repeat split; try assumption.
+  intro E. rewrite E in C.
+  assert (R : forall a, res_str_eqb a a = true) by (intros [s|e]; [apply str_eqb_refl|destruct e; reflexivity]).
+  rewrite R in C. discriminate.
+Qed.
